@@ -4,10 +4,12 @@ from common import *
 import dcecheck, ordercheck
 
 
-def validate(cases, rep, name):
-    """cases: [{id, path, ident?}] (accepted or not; rejected programs are skipped).  Returns coverage stats."""
+def validate(cases, rep, name, answers=None):
+    """cases: [{id, path, ident?}] (accepted or not; rejected programs are skipped); answers: the `gv compile` answers with
+    ir_json of the same cases when the caller already has them.  Returns coverage stats."""
     ident = {str(c["id"]): c.get("ident", str(c["id"])) for c in cases}
     dst = dcecheck.validate(cases, rep, name)
-    answers = gv_robust("compile", [{"id": str(c["id"]), "path": c["path"], "ir_json": True} for c in cases], extra=["--limit-ms", "60000"])
+    if answers is None:
+        answers = gv_robust("compile", [{"id": str(c["id"]), "path": c["path"], "ir_json": True} for c in cases], extra=["--limit-ms", "60000"])
     ost = ordercheck.validate([(a["id"], a["ir"]) for a in answers if a.get("verdict") == "ok" and "ir" in a], rep, "order-" + name, lambda i: ident.get(i, i))
     return {"dce": dst, "anf_order": ost}
